@@ -127,6 +127,7 @@ func (ex *Exec) execFrom(fr *Frame, b *ssa.BasicBlock, start int, st *State, k r
 			if fr.top {
 				st.retSite = fmt.Sprintf("b%d", b.Index)
 				fr.lastRet = x
+				st.topFrame = fr
 			}
 			k(st, res)
 			return
@@ -486,7 +487,11 @@ func (ex *Exec) makeSlice(st *State, t types.Type, elem types.Type, ln, cp *Term
 		}
 		return Int(0)
 	})
-	// allocation ghosts (bytes requested by this single make)
+	// allocation ghosts (bytes requested by this single make); allocations of a
+	// compile-time constant size of at most 64 bytes are not tracked
+	if cp.IsInt() && cp.Int.IsInt64() && cp.Int.Int64()*sizeofElem(elem) <= 64 {
+		return sliceVal(t, arr, Int(0), ln, cp)
+	}
 	sz := Mul(cp, Int(sizeofElem(elem)))
 	st.Ghost["maxalloc"] = Max(st.ghost("maxalloc", SInt), sz)
 	st.Ghost["nalloc"] = Add(st.ghost("nalloc", SInt), Int(1))
